@@ -236,7 +236,12 @@ def e_marks(doc, rnd):
     host = struct(doc, optional_sites(doc, rnd, 1)[0])
     host["properties"] += [prop("verifProposed", ref("VerifProposed"), True, proposed=True), prop("verifDeprecated", ref("VerifDeprecated"), True)]
     # marks on existing plain (non-`or`) aliases: base-typed, array-typed and reference-typed ones
-    for an, mark in (("Pattern", {"deprecated": "use GlobPattern", "since": "3.17.0"}), ("DocumentSelector", {"deprecated": "selectors are going away"}), ("RegularExpressionEngineKind", {"sinceTags": ["3.18.0"], "deprecated": "unused"})):
+    for an, mark in (
+        ("Pattern", {"deprecated": "use GlobPattern", "since": "3.17.0"}),
+        ("RegularExpressionEngineKind", {"proposed": True, "since": "3.18.0"}),  # base-typed alias
+        ("DefinitionLink", {"proposed": True}),  # reference-typed alias
+        ("DocumentSelector", {"proposed": True, "sinceTags": ["3.18.0"]}),  # array-typed alias
+    ):
         for a in doc["typeAliases"]:
             if a["name"] == an:
                 a.update(mark)
